@@ -24,7 +24,7 @@ Theorem C04_validator_sound : forall b cut fuel ds qs rs stages fexpr L,
   L = length stages /\
   exists (st st' : state term) (comp : term),
     compose st' stages None = Some comp /\
-    (forall env : var -> Z, eval env comp = den (zalg env) (den_prog (zalg env) ds) fexpr) /\
+    (forall env : var -> Z, eval env comp = zden env (b_univ b) ds fexpr) /\
     (forall env : var -> Z,
        let s := map (hm (eval env)) st in
        step (zalg env) (freeze b cut) s = s /\
